@@ -274,5 +274,19 @@ def evaluate(c):
                 worst, wn = x, lab
             canon.append(lab)
             nontriv.append(ps >= 0.3)
+            if ls == 'other50' and N >= 4:
+                # the same load object attached to one more pulse AFTER the solve, solved again on the same object:
+                # the balance must hold for the loads that are registered now
+                fed = mm_.sources[0].idx
+                mm_.register_load(mm_.loads[0], (fed + 3) % N)
+                mm_.compute()
+                ev += 1
+                res2, ps2 = balance(mm_, ground, real, lab + '+attached-after-solve', viol, None)
+                if res2 is not None:
+                    canon.append(lab + '+attached-after-solve')
+                    nontriv.append(True)
+                    x = (max(0.0, -res2) if real else abs(res2)) / 0.015
+                    if x > worst:
+                        worst, wn = x, lab + '+attached-after-solve'
     return dict(viol=viol[:6], canon=canon, nontriv=nontriv, trans=ev, traces=len(canon), evals=ev, dev=worst * 0.015,
                 outcome='%s' % ('real' if real else env), note=wn, skips=skips)
